@@ -6,3 +6,4 @@ open GoMail.Props.C09
 #print axioms unguarded_panics_on_one_byte
 #print axioms parseMultiPartHeader_total
 #print axioms indexing_accounted_for
+#print axioms no_narrow_counters
